@@ -31,7 +31,8 @@ EXCLUDE = {
     "eval", "import", "vars", "exit",
 }
 
-POOL_QUICK = [("int", "3"), ("negint", "(-2)"), ("rat", "(1/2)"), ("float", "2.5"), ("complex", "(1+2i)"),
+# ("intf": the float equal to the pool's int - ties between tower levels must be broken the same way by every form)
+POOL_QUICK = [("int", "3"), ("intf", "3.0"), ("negint", "(-2)"), ("rat", "(1/2)"), ("float", "2.5"), ("complex", "(1+2i)"),
               ("str", '"ab"'), ("list", "[3, 1, 2]"), ("dict", "{1: 2}"), ("vector", "V(1, 2)"),
               ("bytes", "B[1, 2]"), ("stream", "(1 to 3)"), ("null", "null"),
               ("fn1", "\\x -> [x]"), ("fn2", "\\x, y -> [x, y]"), ("builtin", "+")]
